@@ -120,7 +120,7 @@ def stamps_correspondence(ctx):
     clk = Clk()
     sched_mod.time = clk
     try:
-        for k in range(ctx.scale(250, 3000)):
+        for k in range(ctx.scale(250, 2000)):
             steps, evs = gen_history(rng, rng.randint(3, 30))
             pairs = [(p, c) for p in steps for c in steps]
             s = Scheduler(None, db=None)
@@ -404,10 +404,21 @@ def oracle_case(ctx, case, fails):
                     fails.append(("oracle:changed-input:not-failed-and-draining",
                                   f"{path}: disk at end {seen[-1]} differs from recorded {code} but state={state} "
                                   f"draining={r['draining']}", r))
+        # An amended input that had no recorded hash before the request (UNCONFIRMED, or adopted by a
+        # static tree on the spot) is observed for the first time by the promoted hash job: nothing can
+        # be known about the part of the window before that (ASSUMPTIONS[3]); its window starts there.
+        first_seen = {}
+        for v in r["amend_verdicts"]:
+            if v["rejected"]:
+                continue
+            for p in v["paths"]:
+                ex, st, h, det, hc, prod, tree = v["pre"][p]
+                if p not in r["initial"] and p not in first_seen:
+                    first_seen[p] = v["order"] if (st == F_UNCONFIRMED or ((not ex or det) and tree)) else r["start"]
         for path, fstate, code, dyn in r["final_inputs"]:
             if path not in case.paths or fstate not in (F_BUILT, F_CONFIRMED):
                 continue
-            seen = codes_in_window(case, path, r["start"], r["end"])
+            seen = codes_in_window(case, path, first_seen.get(path, r["start"]), r["end"])
             if state == S_SUCCEEDED and any(c != code for c in seen):
                 changed_under.append((path, dyn, seen, code))
         for path, dyn, seen, code in changed_under:
@@ -481,7 +492,7 @@ def run_consumer_cases(ctx, n, big=False, specs=None):
 
 def correspondence(ctx):
     stamps_correspondence(ctx)
-    n = ctx.scale(160, 2500)
+    n = ctx.scale(160, 1200)
     checks, descr, fails = run_consumer_cases(ctx, n, big=ctx.thorough())
     ctx.oracle_fails = fails
     ctx.count("consumer_cases", len(checks))
